@@ -17,7 +17,7 @@ pub uninterp spec fn may_send(fd: int, count: u64) -> bool;
     requires
         count > 0,
         may_send(crate::ext::fd_raw(&fd), count),
-        forall|b: Seq<u8>| #[trigger] crate::rustix::io::may_write(crate::ext::fd_raw(&fd), b) <==> b == ne_bytes(count),
+        crate::rustix::io::may_write(crate::ext::fd_raw(&fd), ne_bytes(count)),
     ensures
         // the increment -- exactly `count`, nothing else -- has been written to this eventfd (must-call witness); a
         // saturated counter (EAGAIN) is not an error: the source is readable anyway
@@ -43,8 +43,10 @@ impl FlagOnDrop {
         requires
             // C03 (may-call side): a ping may only ever add INCREMENT_PING (2) to its own eventfd: the close bit (1) is never
             // touched by a ping, and pings accumulate in the bits above it
-            forall|f: int, c: u64| #[trigger] may_send(f, c) <==> (f == self.raw() && c == 2),
-            forall|f: int, b: Seq<u8>| #[trigger] crate::rustix::io::may_write(f, b) <==> (f == self.raw() && b == ne_bytes(2)),
+            // (a permission, not an equivalence: the may_* predicates are uninterpreted, so a body can only ever use the
+            // permissions its precondition hands it -- a caller that pins its own permission set with `<==>` satisfies this)
+            may_send(self.raw(), 2),
+            crate::rustix::io::may_write(self.raw(), ne_bytes(2)),
         ensures
             // C03 (must-call side): ping() has written the increment before it returns
             crate::rustix::io::w_write_called(self.raw(), ne_bytes(2)),
@@ -72,6 +74,7 @@ impl FlagOnDrop {
         r matches Ok(ps) ==> {
             // C03: the handle writes to the very eventfd the source polls ...
             &&& ps.0.raw() == ps.1.inner().raw()
+            &&& ps.0.raw() == ps.1.raw()
             // ... which is registered for READ, LEVEL-triggered: an undrained counter (a ping that arrived while an earlier
             // batch was abandoned, or during the callback) is reported again by the next wait -- no lost wake-up
             &&& ps.1.inner().want_mode() is Level
